@@ -32,6 +32,9 @@ func createPods(logger logr.Logger, client client.Client, scheme *runtime.Scheme
 			if err != nil {
 				logger.Error(err, "Generate pod template failed", "name", newPod.GenerateName)
 				errsChan <- err
+
+				// the pod is incomplete (the replicaset could not be set as its controller): do not create it
+				return
 			}
 			logger.V(1).Info("Create pod", "name", newPod.GenerateName, "node", podsToCreate[id], "addAffinity", podAffinitySupported)
 			err = client.Create(context.TODO(), newPod)
